@@ -1,7 +1,9 @@
 package c17
 
 import (
+	"bytes"
 	"fmt"
+	"strings"
 	"unsafe"
 
 	"verifharness/vk"
@@ -9,85 +11,221 @@ import (
 
 const guardLen = 32
 
-// region is one argument as the caller owns it: a backing buffer
-//
-//	[ front guard | argument bytes (len) | spare capacity (cap-len) | back guard ]
-//
-// filled with canary bytes except for the argument bytes. The function under test
-// receives backing[guard : guard+len : guard+len+spare].
-type region struct {
+// part is one argument inside a region: the function under test receives
+// buf[off : off+n : capEnd].
+type part struct {
 	name     string
-	buf      []byte
-	saved    []byte
-	n, spare int
-	writable bool // explicit AEAD dst (or an argument the caller reuses as dst): bytes and spare may change, guards may not
+	off, n   int
+	capEnd   int
+	writable bool // explicit AEAD dst (or an argument the caller reuses as dst): bytes and spare may change during the call it is handed to
+}
+
+// region is memory the caller owns: a backing buffer filled with canary bytes except
+// for the argument bytes. Two layouts:
+//
+//	isolated: [ front guard | argument bytes (len) | spare capacity (cap-len) | back guard ]
+//	packed:   [ front guard | arg A | gap | arg B | gap | arg C | tail | back guard ]
+//
+// In a packed region several arguments of ONE call are sub-slices of ONE buffer (the way a
+// caller splits a received message nonce|ciphertext|tag): the gap may be 0 (adjacent), positive,
+// or negative (the arguments overlap), and the capacity of each sub-slice ends at its length, at
+// the next argument, or at the end of the usable buffer (two-index slicing: the spare capacity
+// of an argument then covers the arguments behind it).
+type region struct {
+	name   string
+	buf    []byte
+	saved  []byte
+	parts  []part
+	lo, hi int // buf[lo:hi] holds arguments, gaps and spare capacity; the rest is guard
+	packed bool
 }
 
 type arena struct {
-	seed uint64
-	regs []*region
+	seed   uint64
+	regs   []*region
+	frozen bool // the call is over: every byte (the former dst too) is the caller's and must stay what it is
 }
 
-// cut makes the argument called name with the given content and spare capacity.
+func (a *arena) canary(name string, n int) []byte {
+	return vk.Expand(a.seed^vk.FP("canary", name, len(a.regs)), n)
+}
+
+// cut makes the argument called name with the given content and spare capacity, in a region of its own.
 func (a *arena) cut(name string, content []byte, spare int) []byte {
-	r := &region{name: name, n: len(content), spare: spare}
-	r.buf = vk.Expand(a.seed^vk.FP("canary", name, len(a.regs)), guardLen+len(content)+spare+guardLen)
+	r := &region{name: name, lo: guardLen, hi: guardLen + len(content) + spare}
+	r.buf = a.canary(name, guardLen+len(content)+spare+guardLen)
 	copy(r.buf[guardLen:], content)
 	r.saved = append([]byte{}, r.buf...)
+	r.parts = []part{{name: name, off: guardLen, n: len(content), capEnd: r.hi}}
 	a.regs = append(a.regs, r)
-	return r.buf[guardLen : guardLen+r.n : guardLen+r.n+spare]
+	return r.buf[guardLen : guardLen+len(content) : r.hi]
 }
 
 // dst makes an explicit destination buffer (writable up to its capacity).
 func (a *arena) dst(name string, content []byte, spare int) []byte {
 	s := a.cut(name, content, spare)
-	a.regs[len(a.regs)-1].writable = true
+	a.regs[len(a.regs)-1].parts[0].writable = true
 	return s
+}
+
+// packItem is one argument of a packed region, in memory order.
+type packItem struct {
+	name     string
+	content  []byte
+	gap      int  // distance between the end of this argument and the start of the next one (last item: spare capacity behind it); negative: overlap
+	writable bool // the caller also passes it as dst (x[:0])
+}
+
+// pack lays the items out in one buffer, in the given order, and returns the sub-slices.
+// capMode: "len" (cap == len), "gap" (cap ends where the next argument starts), "end" (cap ends at
+// the end of the usable buffer). A writable item never overlaps its neighbours and its capacity never
+// covers them (cipher.AEAD: the remaining capacity of dst must not overlap the other arguments).
+func (a *arena) pack(items []packItem, capMode string) [][]byte {
+	n := len(items)
+	offs := make([]int, n)
+	off, end := guardLen, guardLen
+	for i, it := range items {
+		offs[i] = off
+		end = max(end, off+len(it.content))
+		if i == n-1 {
+			end = max(end, off+len(it.content)+max(it.gap, 0))
+			break
+		}
+		g := it.gap
+		if g < 0 && (it.writable || items[i+1].writable) {
+			g = 0
+		}
+		off = max(off, off+len(it.content)+g) // an overlapping argument never starts in front of the one before it
+		if items[i+1].writable {
+			off = max(off, end) // nothing that was laid out earlier reaches into a dst
+		}
+	}
+	var names []string
+	for _, it := range items {
+		names = append(names, it.name)
+	}
+	r := &region{name: "packed(" + strings.Join(names, "|") + ")", lo: guardLen, hi: end, packed: true}
+	r.buf = a.canary(r.name, end+guardLen)
+	for i, it := range items {
+		copy(r.buf[offs[i]:], it.content) // memory order: where two arguments overlap, the later one defines the bytes
+	}
+	out := make([][]byte, n)
+	for i, it := range items {
+		e := offs[i] + len(it.content)
+		next := end // "gap": up to the next argument that starts at or behind the end of this one
+		if i < n-1 {
+			next = max(e, offs[i+1])
+		}
+		capEnd := e
+		switch capMode {
+		case "gap":
+			capEnd = next
+		case "end":
+			capEnd = end
+		}
+		if it.writable {
+			capEnd = min(capEnd, next)
+		}
+		r.parts = append(r.parts, part{name: it.name, off: offs[i], n: len(it.content), capEnd: capEnd, writable: it.writable})
+		out[i] = r.buf[offs[i]:e:capEnd]
+	}
+	r.saved = append([]byte{}, r.buf...)
+	a.regs = append(a.regs, r)
+	return out
 }
 
 // reuseAsDst marks the region of an argument as the destination too (the in-place
 // forms the cipher.AEAD contract allows: Seal(plaintext[:0], ...), Open(ciphertext[:0], ...)).
 func (a *arena) reuseAsDst(name string) {
 	for _, r := range a.regs {
-		if r.name == name {
-			r.writable = true
+		for i := range r.parts {
+			if r.parts[i].name == name {
+				r.parts[i].writable = true
+			}
 		}
 	}
+}
+
+// freeze is called when the call has returned and its own comparison is done: the arena becomes
+// the reference for later comparisons, and nothing in it - the former dst included - may change any more.
+func (a *arena) freeze() {
+	for _, r := range a.regs {
+		copy(r.saved, r.buf)
+	}
+	a.frozen = true
+}
+
+func (r *region) mayChange(i int) bool {
+	for _, p := range r.parts {
+		if p.writable && i >= p.off && i < p.capEnd {
+			return true
+		}
+	}
+	return false
+}
+
+// where describes byte i of the region in the terms of the caller.
+func (r *region) where(i int) string {
+	var roles []string
+	for _, p := range r.parts {
+		switch {
+		case i >= p.off && i < p.off+p.n:
+			roles = append(roles, fmt.Sprintf("the bytes of argument %q (len %d, cap %d) at offset %d", p.name, p.n, p.capEnd-p.off, i-p.off))
+		case i >= p.off+p.n && i < p.capEnd:
+			roles = append(roles, fmt.Sprintf("the spare capacity (behind len) of argument %q (len %d, cap %d) at offset %d", p.name, p.n, p.capEnd-p.off, i-p.off-p.n))
+		}
+	}
+	if len(roles) > 0 {
+		return strings.Join(roles, " = ")
+	}
+	switch {
+	case i < r.lo:
+		return fmt.Sprintf("the memory in front of %s at offset %d", r.name, i-r.lo)
+	case i >= r.hi:
+		return fmt.Sprintf("the memory behind the capacity of %s at offset %d", r.name, i-r.hi)
+	}
+	return fmt.Sprintf("the bytes between the arguments of %s at offset %d of the buffer", r.name, i-r.lo)
 }
 
 // diff returns "" when every byte the callee must not write is what it was, otherwise
 // a description of the first difference.
 func (a *arena) diff() string {
 	for _, r := range a.regs {
+		if bytes.Equal(r.buf, r.saved) {
+			continue
+		}
 		for i := range r.buf {
-			if r.buf[i] == r.saved[i] {
-				continue
-			}
-			zone, off := "", 0
-			switch {
-			case i < guardLen:
-				zone, off = "the memory in front of it", i-guardLen
-			case i < guardLen+r.n:
-				zone, off = "its bytes", i-guardLen
-			case i < guardLen+r.n+r.spare:
-				zone, off = "its spare capacity (behind len)", i-guardLen-r.n
-			default:
-				zone, off = "the memory behind its capacity", i-guardLen-r.n-r.spare
-			}
-			if r.writable && i >= guardLen && i < guardLen+r.n+r.spare {
+			if r.buf[i] == r.saved[i] || (!a.frozen && r.mayChange(i)) {
 				continue
 			}
 			j := i
 			for j < len(r.buf) && r.buf[j] != r.saved[j] && j < i+40 {
 				j++
 			}
-			return fmt.Sprintf("argument %q (len %d, cap %d): %s changed at offset %d: was %x, is %x", r.name, r.n, r.n+r.spare, zone, off, r.saved[i:j], r.buf[i:j])
+			lay := ""
+			if r.packed {
+				lay = " [layout " + r.layout() + "]"
+			}
+			return fmt.Sprintf("%s changed: was %x, is %x%s", r.where(i), r.saved[i:j], r.buf[i:j], lay)
 		}
 	}
 	return ""
 }
 
-// aliases lists the arguments whose backing memory the result slice points into.
+// layout prints a packed region as name[off:end:cap] in memory order (offsets inside the usable buffer).
+func (r *region) layout() string {
+	var s []string
+	for _, p := range r.parts {
+		w := ""
+		if p.writable {
+			w = "=dst"
+		}
+		s = append(s, fmt.Sprintf("%s[%d:%d:%d]%s", p.name, p.off-r.lo, p.off+p.n-r.lo, p.capEnd-r.lo, w))
+	}
+	return strings.Join(s, " ")
+}
+
+// aliases lists the regions the result slice points into.
 func (a *arena) aliases(res []byte) []string {
 	if cap(res) == 0 {
 		return nil
@@ -106,9 +244,86 @@ func (a *arena) aliases(res []byte) []string {
 // anySpare reports whether some read-only argument has spare capacity.
 func (a *arena) anySpare() bool {
 	for _, r := range a.regs {
-		if r.spare > 0 && !r.writable {
-			return true
+		for _, p := range r.parts {
+			if p.capEnd > p.off+p.n && !p.writable {
+				return true
+			}
 		}
 	}
 	return false
+}
+
+// layoutClasses names the layout features of the case for the evidence.
+func (a *arena) layoutClasses() []string {
+	out := []string{"layout.isolated"}
+	for _, r := range a.regs {
+		if !r.packed {
+			continue
+		}
+		out = []string{"layout.packed", fmt.Sprintf("layout.packed.%dargs", len(r.parts))}
+		for i := 0; i+1 < len(r.parts); i++ {
+			p, q := r.parts[i], r.parts[i+1]
+			switch {
+			case q.off == p.off+p.n && p.n > 0 && q.n > 0:
+				out = append(out, "layout.adjacent."+p.name+"|"+q.name)
+				if p.capEnd >= q.off+q.n {
+					out = append(out, "layout.adjacent-under-capacity."+p.name+"|"+q.name)
+				}
+			case q.off < p.off+p.n:
+				out = append(out, "layout.overlap")
+			default:
+				out = append(out, "layout.gap")
+			}
+		}
+		for _, p := range r.parts {
+			if p.writable {
+				out = append(out, "layout.packed.with-inplace-dst")
+			}
+		}
+	}
+	return out
+}
+
+// ------------------------------------------------------------------ memory of earlier calls
+
+// ledger keeps the arenas of earlier calls of one sequence: memory handed to a call stays the
+// caller's after the call has returned, so no LATER call may write it either.
+type ledger struct {
+	keep    int
+	entries []ledgerEntry
+}
+
+type ledgerEntry struct {
+	step   int
+	what   string
+	a      *arena
+	pinned bool
+}
+
+func (l *ledger) add(step int, what string, a *arena, pinned bool) {
+	a.freeze()
+	l.entries = append(l.entries, ledgerEntry{step: step, what: what, a: a, pinned: pinned})
+	n := 0
+	for _, e := range l.entries {
+		if !e.pinned {
+			n++
+		}
+	}
+	for i := 0; n > l.keep && i < len(l.entries); i++ {
+		if !l.entries[i].pinned {
+			l.entries = append(l.entries[:i], l.entries[i+1:]...)
+			n--
+			i--
+		}
+	}
+}
+
+// verify compares the memory of every remembered call with what it was when that call returned.
+func (l *ledger) verify() (step int, what, msg string) {
+	for _, e := range l.entries {
+		if m := e.a.diff(); m != "" {
+			return e.step, e.what, m
+		}
+	}
+	return 0, "", ""
 }
